@@ -102,7 +102,9 @@ def run(ctx):
             if src is not None and src[0] == "phi":
                 init = g.eb.init_expr(src[1])
             rng = Agg("Range", Lit(0), Bin("Sub", Field(Arg(1), "bits"), Lit(1)))
-            good = src is not None and not adapters_in(src) and (Mentions(Var("auth_inner"))(src) or Mentions(rng)(src))
+            # the loop runs over the inner authenticators, a vector built from (0..bits-1) - identified by its defining
+            # expression, not by the variable's name
+            good = src is not None and not adapters_in(src) and (Mentions(rng)(src) or (init is not None and Mentions(rng)(init)))
         if good:
             ctx.ok(rule, key, "compute_next_corr_shares once per inner authenticator (bits - 1 levels) and once for the leaf", loc=f.loc)
         else:
